@@ -364,12 +364,15 @@ def run_channel(res, n, d, fc, sc, calls, nq, stats, label):
     rng = res.rng
     top = common.scratch_dir()
     nf = common.number_form
-    w = digital_rf.DigitalMetadataWriter(common.path_form(top), nf(rng, sc), nf(rng, fc), nf(rng, n), nf(rng, d), PREFIX)
+    forms = [nf(rng, sc), nf(rng, fc), nf(rng, n), nf(rng, d)]
+    arg_types = [type(x).__name__ for x in forms]      # how (subdir cadence, file cadence, numerator, denominator) are passed
+    w = digital_rf.DigitalMetadataWriter(common.path_form(top), forms[0], forms[1], forms[2], forms[3], PREFIX)
     spec, sstat = spec_of(calls)
-    cfgi = {"n": n, "d": d, "fc": fc, "sc": sc, "calls": calls}
+    cfgi = {"n": n, "d": d, "fc": fc, "sc": sc, "calls": calls, "arg_types": arg_types}
     expv, istat = {}, []
     refused_tags = set()
     first_keys = None
+    rd_old = [None]
     for c, ok_spec in zip(calls, sstat):
         sarg, data, ev = build_data(c["form"], c["samples"], c["tags"], c["vseed"])
         if first_keys is None:
@@ -382,6 +385,21 @@ def run_channel(res, n, d, fc, sc, calls, nq, stats, label):
         except Exception as e:  # noqa
             ok = ["exc", repr(e)[:200]]
         istat.append(ok)
+        # a reader that lives through the recording: created after the first call, it reads (everything so far)
+        # after every later call; half of the final queries go to it.  "any read" includes reads by a reader
+        # that has answered other reads before
+        if rd_old[0] is None:
+            try:
+                rd_old[0] = digital_rf.DigitalMetadataReader(common.path_form(top))
+            except Exception:  # noqa  (nothing written yet)
+                pass
+        else:
+            try:
+                b0 = rd_old[0].get_bounds()
+                rd_old[0].read(b0[0], b0[1])
+                res.count("long-lived-reader:intermediate-read")
+            except Exception:  # noqa  (judged by the final queries)
+                pass
         done = {}
         for k, t in zip(c["samples"], c["tags"]):
             if spec.get(k) == t:
@@ -455,9 +473,10 @@ def run_channel(res, n, d, fc, sc, calls, nq, stats, label):
     # ---- queries
     for qi, q in enumerate(qs):
         problems = []
-        got = impl_answer(rd, q, expv, problems)
+        use_old = rd_old[0] is not None and qi % 2 == 1
+        got = impl_answer(rd_old[0] if use_old else rd, q, expv, problems)
         exp = spec_answer(spec, q, lacks_opt, lambda k: spec_path(n, d, fc, sc, k))
-        inp = dict(cfgi, query=[q[0], q[1], q[2], q[3]])
+        inp = dict(cfgi, query=[q[0], q[1], q[2], q[3]], reader="created after the first write call, read after every call" if use_old else "fresh")
         kind = q[0]
         res.case(("q", n, d, fc, sc, label, q[0], q[1], q[2], repr(q[3]), len(calls)), nontrivial=True)
         res.count("query:%s%s" % ({0: "get_bounds", 1: "read", 2: "read-ffill", 3: "read_latest", 4: "read()",
@@ -599,10 +618,14 @@ def replay(res, rp):
     i = rp["input"]
     n, d, fc, sc, calls = i["n"], i["d"], i["fc"], i["sc"], i["calls"]
     top = common.scratch_dir()
-    nf = common.number_form
-    w = digital_rf.DigitalMetadataWriter(common.path_form(top), nf(rng, sc), nf(rng, fc), nf(rng, n), nf(rng, d), PREFIX)
+    at = i.get("arg_types") or ["int"] * 4
+    F = common.number_from_form
+    print("subdir cadence, file cadence, numerator, denominator passed as", at)
+    w = digital_rf.DigitalMetadataWriter(top, F(at[0], sc), F(at[1], fc), F(at[2], n), F(at[3], d), PREFIX)
     spec, sstat = spec_of(calls)
     expv = {}
+    rd_old = None
+    long_lived = str(i.get("reader", "")).startswith("created")
     print("config n=%d d=%d file_cadence=%d subdir_cadence=%d" % (n, d, fc, sc))
     bad = False
     for c, ok_spec in zip(calls, sstat):
@@ -616,7 +639,19 @@ def replay(res, rp):
                                                           "ok" if ok_spec else "IOError"))
         bad |= (ok != ok_spec)
         expv.update({t: ev[t] for k, t in zip(c["samples"], c["tags"]) if spec.get(k) == t})
-    rd = digital_rf.DigitalMetadataReader(common.path_form(top))
+        if long_lived:
+            try:
+                if rd_old is None:
+                    rd_old = digital_rf.DigitalMetadataReader(top)
+                else:
+                    b0 = rd_old.get_bounds()
+                    rd_old.read(b0[0], b0[1])
+            except Exception:  # noqa
+                pass
+    rd = digital_rf.DigitalMetadataReader(top)
+    if long_lived and rd_old is not None:
+        rd = rd_old
+        print(" (queries go to a reader created after the first write call that read after every call)")
     q = i.get("query")
     if q and isinstance(q[0], int):
         q = (q[0], q[1], q[2], q[3])
